@@ -220,8 +220,9 @@ def init_srv(h, extra_space=None):
 def case_term(h, extra_space=None, with_nodes=True):
     evs, outs = [], []
     for e in h.evs:
-        if e["ev"].get("mapns"):
-            continue    # Browse of the map namespace: no state change; compared with Model map_browse by C33
+        if e["ev"].get("mapns") or e["ev"].get("nomodel"):
+            continue    # requests on the map namespace (Browse is compared with Model map_browse by C33) and harness-side
+                        # application actions (a change notification: reads only) are not events of the model
         evs.append(event(e["ev"]))
         outs.append(outcome(e["ev"], e["out"]))
         for i in e.get("internal") or []:
